@@ -232,5 +232,39 @@ StrictParse(bs) ==
                       icc |-> NoMeta, exif |-> NoMeta, xmp |-> NoMeta, nchunks |-> 1]
       ELSE Fail("first chunk is " \o TagName(first))
 
+(* ------------------------------------------------------------------------ *)
+(* Layout map: the byte extent of every syntax element of a (valid) file,    *)
+(* used to classify fault positions (C17 truncation points, C05 mutations).  *)
+(* Elements are [name, from, to) with 0-based offsets.                       *)
+(* ------------------------------------------------------------------------ *)
+El(name, from, to) == [name |-> name, from |-> from, to |-> to]
+ChunkEls(bs, c, prefix) ==
+  LET nm == prefix \o TagName(c.tag)
+      body == IF c.tag = T_VP8 /\ c.size >= 10 THEN
+                 LET p0 == LE24(bs, c.off) \div 32
+                     e0 == IF c.off + 10 + p0 < c.off + c.size THEN c.off + 10 + p0 ELSE c.off + c.size
+                 IN <<El(nm \o ":frame-header", c.off, c.off + 10), El(nm \o ":partition0", c.off + 10, e0)>>
+                    \o (IF e0 < c.off + c.size THEN <<El(nm \o ":token-partitions", e0, c.off + c.size)>> ELSE <<>>)
+              ELSE IF c.tag = T_VP8L /\ c.size >= 5 THEN
+                 <<El(nm \o ":header", c.off, c.off + 5)>>
+                 \o (IF c.size > 5 THEN <<El(nm \o ":data", c.off + 5, c.off + c.size)>> ELSE <<>>)
+              ELSE IF c.tag = T_ALPH /\ c.size >= 1 THEN
+                 <<El(nm \o ":header", c.off, c.off + 1)>>
+                 \o (IF c.size > 1 THEN <<El(nm \o ":data", c.off + 1, c.off + c.size)>> ELSE <<>>)
+              ELSE IF c.size > 0 THEN <<El(nm \o ":payload", c.off, c.off + c.size)>> ELSE <<>>
+  IN <<El(nm \o ":chunk-header", c.off - 8, c.off)>> \o body
+     \o (IF c.pad = 1 THEN <<El(nm \o ":pad", c.off + c.size, c.off + c.size + 1)>> ELSE <<>>)
+
+LayoutMap(bs) ==
+  LET wk == Walk(bs, 12, Len(bs))
+      one(c) == IF c.tag = T_ANMF /\ c.size >= 16
+                  THEN LET sub == Walk(bs, c.off + 16, c.off + c.size)
+                       IN <<El("ANMF:chunk-header", c.off - 8, c.off), El("ANMF:frame-header", c.off, c.off + 16)>>
+                          \o (IF sub.ok THEN FoldLeft(LAMBDA acc, sc : acc \o ChunkEls(bs, sc, "ANMF/"), <<>>, sub.list)
+                               ELSE <<El("ANMF:payload", c.off + 16, c.off + c.size)>>)
+                  ELSE ChunkEls(bs, c, "")
+  IN IF ~wk.ok THEN <<>>
+     ELSE <<El("RIFF:header", 0, 12)>> \o FoldLeft(LAMBDA acc, c : acc \o one(c), <<>>, wk.list)
+
 Slice(bs, od) == IF od[2] <= 0 THEN <<>> ELSE SubSeq(bs, od[1] + 1, od[1] + od[2])
 =============================================================================
